@@ -389,6 +389,9 @@ def run(ctx):
     names = list(names_exhaustive(alphabet, 4))
     # compatibility look-alikes of '.', '..', '/', '\\' (they become the real thing under NFKC / NFKD normalisation; to
     # split_template_path and to the file system they are ordinary characters)
+    # segments padded with blanks: ordinary names to split_template_path and to the file system; '..' after a strip()
+    padded = [".. ", " ..", "..\t", "\u00a0..", ". .", " ", "a ", "secret", "sub", "a"]
+    names += list(names_exhaustive(padded, 3))
     lookalike = ["\u2025", "\uff0e\uff0e", "\u2024\u2024", "\uff0e", "\ufe52\ufe52", "a\uff3cb", "\uff0fsecret", "\u2025\uff0fsecret",
                  "secret", "sub", "a"]
     names += list(names_exhaustive(lookalike, ctx.size(3, 4)))
@@ -751,6 +754,32 @@ def run_more(ctx, jinja2, sb, names):
         ctx.reject({"kind": "module"}, f"ModuleLoader.get_source raised {type(e).__name__} instead of RuntimeError")
     if ml.has_source_access is not False:
         ctx.reject({"kind": "module"}, "ModuleLoader.has_source_access is not False")
+    # a member loader may report TemplateNotFound under ANOTHER name than the one asked for (ModuleLoader: the normal form;
+    # PrefixLoader: the full name; a custom loader: anything): ChoiceLoader must still move on to the next member
+    class Renaming(jinja2.BaseLoader):
+        def get_source(self, environment, template):
+            raise jinja2.TemplateNotFound("renamed/" + template)
+    later = {"./zz": "id:85", "zz": "id:86", "/a/./b": "id:87", "a": "id:88"}
+    for label, first in (("ModuleLoader", ml), ("PrefixLoader", jinja2.PrefixLoader({"p": jinja2.DictLoader({})})), ("custom", Renaming())):
+        ch = jinja2.ChoiceLoader([first, jinja2.DictLoader(later)])
+        for n in ("./zz", "zz", "/a/./b", "p/x", "nothing", "a"):
+            for how in ("load", "get_source"):
+                if how == "get_source" and label == "ModuleLoader":
+                    continue                      # no source access: RuntimeError by design
+                try:
+                    got = (ch.load(env, n).render() if how == "load" else ch.get_source(env, n)[0])[3:]
+                except jinja2.TemplateNotFound:
+                    got = "N"
+                except Exception as e:  # noqa
+                    got = "X:" + type(e).__name__
+                want = ("81" if n == "a" and label == "ModuleLoader" else later[n][3:]) if n in later else "N"
+                ctx.case(key=("renaming", label, n, how))
+                ctx.count("choice_member_renames_notfound")
+                if got != want:
+                    ctx.reject({"kind": "renaming", "first": label, "name": n, "how": how},
+                               f"ChoiceLoader([{label}, DictLoader]).{how}({n!r}): got {got}, the first member that has it holds {want}")
+                else:
+                    ctx.validated()
     for n in [x for x in names if x.count("/") <= 2][::3]:
         _AUDIT["opens"], _AUDIT["on"] = [], True
         try:
